@@ -782,6 +782,11 @@ class Layer(BaseObject):
         newName = data["newValue"]
         glyph = self._glyphs[oldName]
         self._deleteGlyph(oldName, endObservations=False)
+        # the glyph has neither been read from nor written to a file of
+        # its new name: the state of the old file (recorded above for the
+        # scheduled deletion) must not be compared with that file.
+        glyph._dataOnDisk = None
+        glyph._dataOnDiskTimeStamp = None
         if self._unicodeData is not None:
             self._unicodeData.removeGlyphData(oldName, glyph.unicodes)
         self._insertGlyph(glyph, beginObservations=False)
